@@ -33,6 +33,29 @@ theorem version_ge_requested (req : Nat) (c k p : Bool) (sp : Nat) : req ≤ cal
   unfold calcSilfVersion
   exact Nat.le_trans (Nat.le_trans (Nat.le_trans (bump_ge _ _ _) (bump_ge _ _ _)) (bump_ge _ _ _)) (bump_ge _ _ _)
 
+/-- GrcManager::DetermineTableVersion, the part about pass-level constraints (`if (...) pass(n) ... endif`): the pass
+    constraint field exists from Silf 3.1. A request at or below 3.0 that the user did not make explicitly is raised to
+    3.1 (warning 3501); an explicit request is kept and the constraints are copied into every rule of the pass
+    instead (warning 3530). -/
+def fmtPassConstraints : Nat := 0x00030001
+
+def afterPassConstraints (req : Nat) (userSpecified hasPassConstraints : Bool) : Nat :=
+  if hasPassConstraints ∧ req ≤ 0x00030000 ∧ ¬ userSpecified then fmtPassConstraints else req
+
+/-- Either the version has the pass-constraint field, or the request was explicit (and then no pass constraint is
+    written: they are moved into the rules). -/
+theorem afterPassConstraints_ok (req : Nat) (u h : Bool) (hh : h = true) :
+    fmtPassConstraints ≤ afterPassConstraints req u h ∨ (u = true ∧ afterPassConstraints req u h = req) := by
+  unfold afterPassConstraints fmtPassConstraints
+  subst hh
+  by_cases hr : req ≤ 0x00030000
+  · cases u <;> simp [hr]
+  · left; simp [hr]; omega
+
+theorem afterPassConstraints_ge (req : Nat) (u h : Bool) : req ≤ afterPassConstraints req u h := by
+  unfold afterPassConstraints fmtPassConstraints
+  split <;> omega
+
 /-- Glat / Gloc versions as chosen by VersionForTable from the requested Silf version. -/
 def glatVersionFor (spec : Nat) : Nat := if spec ≥ glatThreshold then glatNew else glatOld
 def glocVersionFor (spec : Nat) : Nat := if spec ≥ glocThreshold then glocNew else glocOld
